@@ -177,6 +177,11 @@ def check(ctx, rep):
         rep.missing('R12.c', 'ResolveRegistry::register')
     else:
         c09.check_register(rep, 'R12.c', core, reg_fn)
+    # R12.h: the task awaiting a rejected response is woken and evicted; that must not cost a sibling its wake-up: every id taken off a
+    # ready queue goes to run_task (nothing drains or skips queued wake-ups)
+    rep.rule('R12.h', 'every task id taken off a ready queue is handed to run_task (a rejected response cannot swallow the wake-up of another request)', floor=2)
+    from rules.props import c01 as _c01
+    _c01.check_ready_ids_are_run(rep, 'R12.h', core)
     # R12.g: a rejected response drops its resolver unresolved, and the task awaiting it is evicted: that must cancel that task alone. The
     # aborted flags are written only by the abort handles (the root task shares its command's flag: flagging an evicted task would cancel
     # the sibling requests of the command as well) (shared with C06 R06.i)
